@@ -300,6 +300,13 @@ def fuzz(_, stderr, parser: ArgumentParser, args: Namespace):
                 break
             except TimeoutError:
                 break
+            except Exception as exc:
+                print(
+                    f"isla fuzz: error: An exception ({type(exc).__name__}) occurred "
+                    + f"during constraint solving, message: `{exc}`",
+                    file=stderr,
+                )
+                sys.exit(1)
 
             # Write input file
             with open(
